@@ -85,6 +85,7 @@ CLAIMED = {
          "Trusted: rustc diagnostics, the harness's automaton model; chains the statement does not decide are generated but not judged; failing chains are reported as generated (no shrinking - one chain is the unit).",
          "DESIGN.md §2 C19"),
 }
+PT_CAMPAIGNS = {"C04", "C06", "C07", "C10", "C11", "C13", "C14", "C15", "C16", "C18"}
 NOT_YET = "check not built yet in this revision (work in progress; see DESIGN.md §2 for the planned generated-input check)"
 
 props = [json.loads(l) for l in open(os.path.join(HERE, "properties.jsonl"))]
@@ -93,6 +94,9 @@ for p in props:
     i = p["id"]
     if i in CLAIMED:
         tech, text, note, ref = CLAIMED[i]
+        if i in PT_CAMPAIGNS:
+            tech += "; thorough tier also coverage-guided fuzzing (libFuzzer): the fuzzer's bytes are the random stream of the same proptest strategy, the case is judged by the same oracle"
+            text += " Thorough tier: additionally libFuzzer campaigns (16 processes, 0.2-1.5 million executions each, value profile, random starting corpora) over the proptest-driven sub-checks; a crashing input is decoded into an ordinary replay case."
         checks.append({
             "property_id": i,
             "quick_cmd": f"./check {i} quick",
@@ -118,7 +122,7 @@ m = {
  },
  "engines": [
    {"name": "vcheck", "path": "/verif/harness", "serves_properties": sorted(CLAIMED),
-    "kind_free_text": "stand-alone cargo crate (path deps on /repo/packages/*): seeded proptest runners with shrinking, reference models, exact-law statistical tests, replay files; rebuilt from /repo's working tree by ./check"},
+    "kind_free_text": "stand-alone cargo crate (path deps on /repo/packages/*): seeded proptest runners with shrinking, reference models, exact-law statistical tests, replay files, cargo-fuzz targets (thorough tier) built against the same tree; rebuilt from /repo's working tree by ./check"},
  ],
  "checks": checks,
  "not_applicable": na,
